@@ -93,16 +93,24 @@ func NewGraphQLMiddleware(logger logging.Logger, remote *config.Backend) Middlew
 
 				req.Body = io.NopCloser(bytes.NewReader([]byte{}))
 				req.Method = string(opt.Method)
+				// the header and query maps can be shared with the pipelines of
+				// sibling backends: write to private copies
+				req.Headers = cloneHeaderMap(req.Headers, 2)
 				req.Headers["Content-Length"] = []string{"0"}
 				// even when there is no content, we just set the content-type
 				// header to be safe if the server side checks it:
 				req.Headers["Content-Type"] = []string{"application/json"}
 				if req.Query != nil {
+					query := make(url.Values, len(req.Query)+len(q))
+					for k, vs := range req.Query {
+						query[k] = append([]string(nil), vs...)
+					}
 					for k, vs := range q {
 						for _, v := range vs {
-							req.Query.Add(k, v)
+							query.Add(k, v)
 						}
 					}
+					req.Query = query
 				} else {
 					req.Query = q
 				}
@@ -119,10 +127,19 @@ func NewGraphQLMiddleware(logger logging.Logger, remote *config.Backend) Middlew
 
 			req.Body = io.NopCloser(bytes.NewReader(b))
 			req.Method = string(opt.Method)
+			req.Headers = cloneHeaderMap(req.Headers, 2)
 			req.Headers["Content-Length"] = []string{strconv.Itoa(len(b))}
 			req.Headers["Content-Type"] = []string{"application/json"}
 
 			return next[0](ctx, req)
 		}
 	}
+}
+
+func cloneHeaderMap(h map[string][]string, extra int) map[string][]string {
+	res := make(map[string][]string, len(h)+extra)
+	for k, vs := range h {
+		res[k] = vs
+	}
+	return res
 }
